@@ -50,7 +50,9 @@ func init() {
 			}},
 			{"transfer-log-on-halt", "storeBlock turns notifications into transfer-log entries only behind the VMState == Halt test", ruleTransferLogOnHalt},
 			{"scopeless-loader", "a frame loaded inside the execution closure by a function that opens no rollback scope for it (no private DAO layer, no unload callback) gets flags whose upper bound contains neither WriteStates nor AllowNotify: otherwise what it writes survives when it throws and an outer frame catches", ruleScopelessLoader},
-			{"vm-bytes-retained", "a system call or native method that keeps bytes taken from a VM item beyond the call (iterator, struct, map) clones them first: a Buffer stays writable by the contract", func(c *Ctx) { ruleVMBytesRetained(c, "pkg/core/interop/storage", "pkg/core/interop/runtime", "pkg/core/interop/contract", "pkg/core/interop/iterator", "pkg/core/interop/crypto", "pkg/core/native", "pkg/core/interop") }},
+			{"vm-bytes-retained", "a system call or native method that keeps bytes taken from a VM item beyond the call (iterator, struct, map) clones them first: a Buffer stays writable by the contract", func(c *Ctx) {
+				ruleVMBytesRetained(c, "pkg/core/interop/storage", "pkg/core/interop/runtime", "pkg/core/interop/contract", "pkg/core/interop/iterator", "pkg/core/interop/crypto", "pkg/core/native", "pkg/core/interop")
+			}},
 			{"publish-atomic", "all private layers given to one PersistPrivate call (the block and its state changes) are merged inside one critical section of the store: the lock is taken before the loop over the layers and released after it", rulePublishAtomic},
 			{"oracle-requests-reconciled", "the one map of execution state kept outside the DAO layers (Oracle.newRequests) is checked against contract storage before it is handed to the oracle service: requests of faulted or rolled-back executions are dropped", ruleOracleRequestsReconciled},
 			{"notification-immutable", "a recorded notification is an immutable deep copy (made by AddNotification or by every caller): System.Runtime.GetNotifications hands the recorded object out, and a rolled-back callee must not be able to rewrite an event emitted before it ran", ruleNotificationImmutable},
@@ -144,6 +146,7 @@ func init() {
 	register(&PropertySpec{
 		ID: "C12",
 		Rules: []RuleSpec{
+			{"budget-shared", "a recursive walk over a compound item counts down budgets that its caller hands down by pointer; it never keeps a budget in a local of its own, which would start afresh at every nesting level and bound one level instead of the operation", func(c *Ctx) { ruleBudgetShared(c, "pkg/vm", "pkg/vm/stackitem") }},
 			{"err-discipline", "no error returned by a function of the module is discarded (called as a statement or assigned to _) in the VM, except at the tabled sites whose reason is recorded: a dropped error is a dropped check or a lost write", func(c *Ctx) { ruleErrDiscipline(c, "pkg/vm", "pkg/vm/stackitem") }},
 			{"absent-is-nil", "a lookup that returns nil for a missing key and may return a stored empty value (dao.GetStorageItem, BoltDB bucket Get) is never tested for absence by length", func(c *Ctx) { ruleAbsentIsNil(c, "pkg/vm", "pkg/vm/stackitem") }},
 			{"unsigned-window", "an ordering comparison one operand of which is the difference of two non-constant unsigned values (a height minus a window) is made only where the function tests the order of those two values: otherwise the difference wraps around and \"older than the retained window\" holds for every height of a short chain", func(c *Ctx) { ruleUnsignedWindow(c, "pkg/vm", "pkg/vm/stackitem") }},
@@ -170,6 +173,9 @@ func init() {
 	register(&PropertySpec{
 		ID: "C13",
 		Rules: []RuleSpec{
+			{"budget-shared", "a recursive walk over a compound item counts down budgets that its caller hands down by pointer; it never keeps a budget in a local of its own, which would start afresh at every nesting level and bound one level instead of the operation", func(c *Ctx) { ruleBudgetShared(c, "pkg/vm", "pkg/vm/stackitem") }},
+			{"wrap-carry", "hand-written multi-word arithmetic tests the wrap value of the word after ++/-- (0 / MaxUintN), and a function that changes the words of a *big.Int parameter in place writes them back in a deferred function: converting an Integer to bytes leaves the Integer on the stack unchanged", ruleWrapCarry},
+			{"operand-validated", "an operand taken from the evaluation stack is converted on the succeeding path of its instruction too, not only inside a failure message: an operand the conversion rejects faults the VM whatever the other operands are", ruleOperandValidated},
 			{"err-discipline", "no error returned by a function of the module is discarded (called as a statement or assigned to _) in the VM, except at the tabled sites whose reason is recorded: a dropped error is a dropped check or a lost write", func(c *Ctx) { ruleErrDiscipline(c, "pkg/vm", "pkg/vm/stackitem") }},
 			{"absent-is-nil", "a lookup that returns nil for a missing key and may return a stored empty value (dao.GetStorageItem, BoltDB bucket Get) is never tested for absence by length", func(c *Ctx) { ruleAbsentIsNil(c, "pkg/vm", "pkg/vm/stackitem") }},
 			{"unsigned-window", "an ordering comparison one operand of which is the difference of two non-constant unsigned values (a height minus a window) is made only where the function tests the order of those two values: otherwise the difference wraps around and \"older than the retained window\" holds for every height of a short chain", func(c *Ctx) { ruleUnsignedWindow(c, "pkg/vm", "pkg/vm/stackitem") }},
@@ -254,7 +260,9 @@ func init() {
 			{"check-all-loop", "a loop that rejects on a property of each element with an error return is not left early with a break (the elements after it would escape the check)", func(c *Ctx) { ruleCheckAllLoop(c, "pkg/core/storage", "pkg/core/dao") }},
 			{"limit-exclusive", "a backend scan loop that admits a key equal to the range limit (the first key after the prefix) also requires the prefix", ruleLimitExclusive},
 			{"seek-snapshot-atomic", "a range scan that merges a snapshot of the cache with a scan of the lower store starts the lower scan inside the critical section in which the snapshot was taken (known finding: it does not)", ruleSeekSnapshotAtomic},
-			{"vm-bytes-retained", "a system call or native method that keeps bytes taken from a VM item beyond the call (iterator, struct, map) clones them first: a Buffer stays writable by the contract", func(c *Ctx) { ruleVMBytesRetained(c, "pkg/core/interop/storage", "pkg/core/interop/runtime", "pkg/core/interop/contract", "pkg/core/interop/iterator", "pkg/core/interop/crypto", "pkg/core/native", "pkg/core/interop") }},
+			{"vm-bytes-retained", "a system call or native method that keeps bytes taken from a VM item beyond the call (iterator, struct, map) clones them first: a Buffer stays writable by the contract", func(c *Ctx) {
+				ruleVMBytesRetained(c, "pkg/core/interop/storage", "pkg/core/interop/runtime", "pkg/core/interop/contract", "pkg/core/interop/iterator", "pkg/core/interop/crypto", "pkg/core/native", "pkg/core/interop")
+			}},
 			{"flag-guarded-value", "a cursor variable that travels with a validity flag is read only where the flag is known to be true: after the flag went false the variable still holds the element consumed last", func(c *Ctx) { ruleFlagGuardedValue(c, "pkg/core/storage") }},
 			{"publish-atomic", "all private layers given to one PersistPrivate call (the block and its state changes) are merged inside one critical section of the store: the lock is taken before the loop over the layers and released after it", rulePublishAtomic},
 			{"lock-pairing", "in pkg/core/storage every mutex acquired is released on every exit (conditional wrappers analysed for shared stores; the isSync-correlated unlock/relock of persist included)", func(c *Ctx) { lockPairingPkgs(c, []string{stPkg}, storageAssume, 10) }},
@@ -305,6 +313,7 @@ func init() {
 	register(&PropertySpec{
 		ID: "C10",
 		Rules: []RuleSpec{
+			{"collapse-owner", "no method of Trie other than Collapse lends the trie's own nodes to code that replaces visited nodes by collapsed hashes, unless it switched collapsing off first: a search never makes unflushed content unreadable", ruleCollapseOwner},
 			{"limit-coherence", "the trie's key and value limits (enforced on its read paths only) cover what contract storage accepts on the write path: 4-byte contract id + MaxStorageKeyLen, MaxStorageValueLen", ruleLimitCoherence},
 			{"value-absence", "in package mpt a []byte that becomes a leaf value is never tested for absence by its length (nil means absent, an empty value is a stored value)", ruleValueAbsence},
 			{"err-discipline", "no error returned by a function of the module is discarded (called as a statement or assigned to _) in package mpt, except at the tabled sites whose reason is recorded: a dropped error is a dropped check or a lost write", func(c *Ctx) { ruleErrDiscipline(c, "pkg/core/mpt") }},
@@ -427,8 +436,12 @@ func init() {
 			{"encode-pure", "no encoder (binary, JSON, stack item) assigns a field of the value it encodes, tabled caches excepted: encoding does not change the value", ruleEncodePure},
 			{"array-max", "every ReadArray of the node's decoders passes the maximum its format allows (ReadArray allocates for the announced count before reading an element); database-only readers are tabled", ruleArrayMax},
 			{"decoded-loop", "a loop whose trip count was read from the input is entered only behind an ordering comparison of the count with a limit, or leaves as soon as the reader has failed", ruleDecodedLoop},
-			{"limit-used", "every maximum a wire package declares (Max*/max* constant) is mentioned by non-test code of the module: a declared bound that nothing enforces leaves the decoder with the reader's defaults", func(c *Ctx) { ruleLimitUsed(c, "pkg/io", "pkg/network", "pkg/network/payload", "pkg/network/capability", "pkg/consensus", "pkg/core/transaction", "pkg/core/block", "pkg/core/state", "pkg/core/mpt", "pkg/smartcontract/nef", "pkg/smartcontract/manifest", "pkg/vm/stackitem", "pkg/core/interop/runtime", "pkg/config/limits") }},
-			{"param-used", "in the wire packages every named parameter of a size-reporting function (name contains Size, integer result, signature not imposed by an interface) is used by the body: a size computed without the value the caller asked about is the size of something else", func(c *Ctx) { ruleParamUsed(c, "pkg/core/block", "pkg/core/transaction", "pkg/network/payload", "pkg/network", "pkg/io", "pkg/core/state", "pkg/consensus", "pkg/smartcontract/nef", "pkg/smartcontract/manifest", "pkg/vm/stackitem", "pkg/core/mpt") }},
+			{"limit-used", "every maximum a wire package declares (Max*/max* constant) is mentioned by non-test code of the module: a declared bound that nothing enforces leaves the decoder with the reader's defaults", func(c *Ctx) {
+				ruleLimitUsed(c, "pkg/io", "pkg/network", "pkg/network/payload", "pkg/network/capability", "pkg/consensus", "pkg/core/transaction", "pkg/core/block", "pkg/core/state", "pkg/core/mpt", "pkg/smartcontract/nef", "pkg/smartcontract/manifest", "pkg/vm/stackitem", "pkg/core/interop/runtime", "pkg/config/limits")
+			}},
+			{"param-used", "in the wire packages every named parameter of a size-reporting function (name contains Size, integer result, signature not imposed by an interface) is used by the body: a size computed without the value the caller asked about is the size of something else", func(c *Ctx) {
+				ruleParamUsed(c, "pkg/core/block", "pkg/core/transaction", "pkg/network/payload", "pkg/network", "pkg/io", "pkg/core/state", "pkg/consensus", "pkg/smartcontract/nef", "pkg/smartcontract/manifest", "pkg/vm/stackitem", "pkg/core/mpt")
+			}},
 			{"codec-symmetry", "for every type with EncodeBinary and DecodeBinary the sequences of wire primitives on the writer/reader agree token by token when both are straight-line; otherwise the sets of primitive kinds agree", ruleCodecSymmetry},
 			{"codec-guards", "where the encoder and the decoder of one type both guard wire operations by comparing the same field with constants, the two sets of constants agree", ruleCodecGuards},
 			{"decode-context", "a decoder of a type whose wire shape depends on a context field (read, never assigned by its DecodeBinary: the consensus state-root flag) hands the context on to every nested value of a context-dependent type it creates", ruleDecodeContext},
